@@ -87,6 +87,10 @@ const std::vector<GrammarSpec> &handwritten_good() {
                     {{"a", 3}, {"b", 5}, {"c", 9}},
                     {R("s", {"a", "s", "b"}, "n", 0, true, {-2, 1, 0}), R("s", {"c"}, nullptr, 0, true, {0}),
                      R("s", {}, nullptr, 0, false)}));
+  // abstract nodes with an empty name (only the callback route can say that)
+  v.push_back(readg("read-noname",
+                    {{"a", 1}, {"p", 2}},
+                    {R("e", {"e", "p", "e"}, "", 1, true, {0, 2}), R("e", {"a"}, "", 0, true, {0})}));
   return v;
 }
 
@@ -237,6 +241,9 @@ GrammarSpec gen_grammar(Rng &r) {
       g.text = true;
     }
   }
+  if (!g.text && r.chance(1, 6))  // the callback route can name an abstract node ""
+    for (auto &rd : g.rules)
+      if (rd.has_anode && r.chance(1, 2)) rd.anode = "";
   return g;
 }
 
